@@ -11,6 +11,14 @@ from symx.check import Raised
 from symx.core import approx, term
 from symx.shims import SymArray
 
+def _qsig(o):
+    """the composing map of a result plus the caption of its quantity (two results describe the same quantity only if both agree)"""
+    from .common import qmap as _qm
+
+    q = o.GetQuantity() if hasattr(o, "GetQuantity") else o
+    return (_qm(o), q.GetUnknownCaption())
+
+
 from .common import get_db, oracle_convert, qmap
 
 PID = "C10"
@@ -63,7 +71,7 @@ def items(tier, seed):
     for op in OPS:
         for ka in KINDS:
             for side in ("left", "right"):
-                for qn in ("m", "cm_depth", "m2", "degC"):
+                for qn in ("m", "cm_depth", "m2", "degC", "unknown_cap"):
                     out.append({"k": "op_number", "a": qn, "op": op, "ka": ka, "side": side, "n": 2})
     db = get_db("default")
     byname = {}
@@ -104,6 +112,10 @@ def _container(kind, xs):
 def _array(qname, kind, xs, ones_kind=None):
     from barril.units import Array
 
+    if qname == "unknown_cap":
+        from barril.units import GetUnknownQuantity
+
+        return Array(GetUnknownQuantity("Gamma Ray"), _container(kind, xs))
     form, u, c = QUANTS[qname]
     if form == "leaf":
         return Array(_container(kind, xs), u, c)
@@ -115,6 +127,10 @@ def _array(qname, kind, xs, ones_kind=None):
 def _scalar(qname, x):
     from barril.units import Scalar
 
+    if qname == "unknown_cap":
+        from barril.units import GetUnknownQuantity
+
+        return Scalar(GetUnknownQuantity("Gamma Ray"), x)
     form, u, c = QUANTS[qname]
     if form == "leaf":
         return Scalar(x, u, c)
@@ -155,12 +171,16 @@ def run(cfg, V):
         for i in range(min(n, m)):
             sres.append(_attempt(lambda: _apply(cfg["op"], _scalar(cfg["a"], xa[i]), _scalar(cfg["b"], xb[i]))))
         s_any = _attempt(lambda: _apply(cfg["op"], _scalar(cfg["a"], 2.0), _scalar(cfg["b"], 4.0)))
-        out = {"res": res[0], "exc": res[1] if res[0] == "raised" else None, "scalar": [(s[0], (s[1].GetValue(), qmap(s[1])) if s[0] == "ok" else s[1]) for s in sres],
-               "scalar_q": qmap(s_any[1]) if s_any[0] == "ok" else s_any[1]}
+        out = {"res": res[0], "exc": res[1] if res[0] == "raised" else None, "scalar": [(s[0], (s[1].GetValue(), _qsig(s[1])) if s[0] == "ok" else s[1]) for s in sres],
+               "scalar_q": _qsig(s_any[1]) if s_any[0] == "ok" else s_any[1]}
         if res[0] == "ok":
             r = res[1]
             v = r.GetAbstractValue()
-            out.update(vals=list(v), rq=qmap(r), ctype="ndarray" if isinstance(v, numpy.ndarray) else type(v).__name__, cls=type(r).__name__)
+            out.update(vals=list(v), rq=_qsig(r), ctype="ndarray" if isinstance(v, numpy.ndarray) else type(v).__name__, cls=type(r).__name__)
+            # the very same operand objects used a second time (an operand silently rescaled by the first use shows here)
+            res2 = _attempt(lambda: _apply(cfg["op"], A, B))
+            out["vals2"] = list(res2[1].GetAbstractValue()) if res2[0] == "ok" else None
+            out["operands_after"] = (list(A.GetAbstractValue()), list(B.GetAbstractValue()), xa, xb) if cfg["a"] in ("m", "cm", "degC", "cm_depth") and cfg["b"] in ("m", "cm", "degC", "cm_depth") else None
         return out
     if k == "op_after_validation":
         from .common import fresh_posc_db, pushed
@@ -206,10 +226,10 @@ def run(cfg, V):
         f = (lambda o: _apply(cfg["op"], kk, o)) if cfg["side"] == "left" else (lambda o: _apply(cfg["op"], o, kk))
         res = _attempt(lambda: f(A))
         sres = [_attempt(lambda: f(_scalar(cfg["a"], x))) for x in xa]
-        out = {"res": res[0], "exc": res[1] if res[0] == "raised" else None, "scalar": [(s[0], (s[1].GetValue(), qmap(s[1])) if s[0] == "ok" else s[1]) for s in sres]}
+        out = {"res": res[0], "exc": res[1] if res[0] == "raised" else None, "scalar": [(s[0], (s[1].GetValue(), _qsig(s[1])) if s[0] == "ok" else s[1]) for s in sres]}
         if res[0] == "ok":
             v = res[1].GetAbstractValue()
-            out.update(vals=list(v), rq=qmap(res[1]), cls=type(res[1]).__name__)
+            out.update(vals=list(v), rq=_qsig(res[1]), cls=type(res[1]).__name__)
         return out
     if k == "getvalues_pair":
         xa = [V["a%d" % i] for i in range(cfg["n"])]
@@ -266,6 +286,9 @@ def props(cfg, T, obs):
             return P
         if len(obs["vals"]) == n:
             P.append(("each element equals the Scalar result for the corresponding elements", z3.And(*[approx(r, s[1][0]) for r, s in zip(obs["vals"], obs["scalar"])]) if n else True))
+        if len(obs["vals"]) == n:
+            P.append(("using the very same operand objects a second time gives the same elements",
+                      z3.And(z3.BoolVal(obs["vals2"] is not None and len(obs["vals2"]) == n), *[approx(r, s[1][0]) for r, s in zip(obs["vals2"] or [], obs["scalar"])]) if n else True))
         if n:
             P.append(("the result quantity equals the Scalar result quantity", all(obs["rq"] == s[1][1] for s in obs["scalar"])))
         elif not isinstance(obs["scalar_q"], str):
